@@ -22,8 +22,9 @@ PY
 run() {
   echo "=== mutation $1"
   git -C $WT diff --stat | tail -1
-  (cd "$VERIF" && VERIF_REPO=$WT VERIF_SHARDS=${VERIF_SHARDS:-4} VERIF_WORK=/tmp bin/check C13 quick 2>&1 | grep -E "^VIOLATION|^  key=|^check C13|HARNESS" | sed 's/replay=.*//' | sort | uniq -c | sort -rn | head -12)
-  echo "exit=${PIPESTATUS[0]}"
+  (cd "$VERIF" && VERIF_REPO=$WT VERIF_SHARDS=${VERIF_SHARDS:-4} bin/check C13 quick >/tmp/c13-mut.out 2>&1; echo "exit=$?" >>/tmp/c13-mut.out)
+  grep -E "^  key=|^check C13|HARNESS|^exit=" /tmp/c13-mut.out | sort | uniq -c | sort -rn | head -12
+  rm -f /tmp/c13-mut.out
   git -C $WT checkout -- . 
 }
 
